@@ -68,6 +68,6 @@ def ofHashErr : HashErr → DdsErr
 def pathAbsolute (p : String) : Bool := p.startsWith "/"
 
 /-- segments of a well-formed path string -/
-def segsOf (p : String) : Segs := (p.splitOn "/").filter (· ≠ "")
+def segsOf (p : String) : Segs := pathSegs p
 
 end Dds
